@@ -402,7 +402,7 @@ def _table_keys(a, fn, node: ast.expr, depth=0) -> set[str] | None:
                 return None
             out.add(chr(v) if isinstance(v, int) else v)
         return out
-    if isinstance(node, ast.Call) and dotted(node.func).endswith('maketrans') and node.args:
+    if isinstance(node, ast.Call) and dotted(node.func).split('.')[-1] in ('maketrans', 'MappingProxyType', 'dict') and node.args:
         return _table_keys(a, fn, node.args[0], depth + 1)
     if isinstance(node, ast.Name) and depth < 3:
         for n in walk_no_defs(fn.node):
@@ -429,7 +429,7 @@ def _table_items(a, fn, node: ast.expr, depth=0):
                 return None
             out.append((chr(kk) if isinstance(kk, int) else kk, vv))
         return out
-    if isinstance(node, ast.Call) and dotted(node.func).endswith('maketrans') and node.args:
+    if isinstance(node, ast.Call) and dotted(node.func).split('.')[-1] in ('maketrans', 'MappingProxyType', 'dict') and node.args:
         return _table_items(a, fn, node.args[0], depth + 1)
     if isinstance(node, ast.Name) and depth < 3:
         for n in walk_no_defs(fn.node):
@@ -480,8 +480,17 @@ def r4_emission(a, tier):
         hazard.add('\t')
     rep.add({'printer_splits_lines': splits or trim_splits, 'printer_expands_tabs': prints_trim and expands, 'hazard_characters': sorted(map(repr, hazard))})
     rp = a.p.func('tatsu.util.regextools.regexpp')
+    # regexpp and the module-level private helpers it hands work to (a callback of re.sub, a quoting helper ...), transitively
+    scope, todo = [rp], [rp]
+    while todo:
+        g = todo.pop()
+        for nm_ in {x.id for x in ast.walk(g.node) if isinstance(x, ast.Name) and isinstance(x.ctx, ast.Load)}:
+            h = rp.module.functions.get(nm_)
+            if h is not None and h not in scope and nm_.startswith('_'):
+                scope.append(h)
+                todo.append(h)
     tables = []
-    for n in ast.walk(rp.node):  # the table may be applied inside a lambda / nested helper (re.sub callback)
+    for n in [x for g in scope for x in ast.walk(g.node)]:  # the table may be applied inside a lambda / nested helper (re.sub callback)
         if isinstance(n, ast.Call) and isinstance(n.func, ast.Attribute) and n.func.attr in ('get', 'translate') and \
                 isinstance(n.func.value, ast.Name if n.func.attr == 'get' else ast.expr):
             src = n.func.value if n.func.attr == 'get' else (n.args[0] if n.args else None)
@@ -493,7 +502,7 @@ def r4_emission(a, tier):
         raise AnalysisError('regexpp: cannot find its escape table (dict .get / str.translate)')
     # (a2) every replacement MEANS the character it replaces, as a regex, whatever follows it: the pattern of the generated parser is
     #      the pattern of the model (`\\b` is a word boundary, not a backspace; `\\0` followed by a digit is an octal escape)
-    for n in ast.walk(rp.node):
+    for n in [x for g in scope for x in ast.walk(g.node)]:
         for src in ([n.func.value] if isinstance(n, ast.Call) and isinstance(n.func, ast.Attribute) and n.func.attr == 'get' else
                     [n.args[0]] if isinstance(n, ast.Call) and isinstance(n.func, ast.Attribute) and n.func.attr == 'translate' and n.args else []):
             items = _table_items(a, rp, src)
@@ -1217,12 +1226,12 @@ def regexpp_literals(a, tier, rule_id, totality_only=False):
 
             def methods(recv, name, args, kwargs, it=it):
                 if recv is it.globals['re'] and name in ('sub', 'escape', 'fullmatch', 'match', 'search', 'split', 'findall'):
-                    args = [it.as_callable(x) if isinstance(x, tuple) and x[:1] == ('<func>',) else x for x in args]
+                    args = [x if isinstance(x, (str, bytes, int, re.Pattern)) or x is None else it.as_callable(x) for x in args]
                     return getattr(re, name)(*args, **kwargs)
                 if isinstance(recv, re.Match) and name in ('group', 'groups', 'start', 'end', 'span'):
                     return getattr(recv, name)(*args)
                 if isinstance(recv, re.Pattern) and name in ('sub', 'match', 'search', 'fullmatch'):
-                    args = [it.as_callable(x) if isinstance(x, tuple) and x[:1] == ('<func>',) else x for x in args]
+                    args = [x if isinstance(x, (str, bytes, int, re.Pattern)) or x is None else it.as_callable(x) for x in args]
                     return getattr(recv, name)(*args, **kwargs)
                 return NotImplemented
             it.methods = methods
